@@ -16,7 +16,7 @@ from .minimise import minimise
 VERIF = os.path.dirname(os.path.dirname(os.path.dirname(os.path.abspath(__file__))))
 EVIDENCE = os.environ.get('VERIF_EVIDENCE_DIR') or os.path.join(VERIF, 'evidence')
 REPLAYS = os.path.join(VERIF, 'replays')
-KNOWN = os.path.join(VERIF, 'known_findings.json')
+KNOWN = os.environ.get('VERIF_KNOWN_FILE') or os.path.join(VERIF, 'known_findings.json')
 
 _PROP = None
 _TIER = None
@@ -220,7 +220,8 @@ def run_check(pid, tier, batch_seed=None, nproc=None, runs=None, time_budget=Non
                         violations.append(r)
                     elif r.status == 'harness_error':
                         harness_errors.append((r.index, r.vclass, r.detail))
-            if len(violations) >= 40 or len(harness_errors) >= 5 or any(v.vclass == 'no_progress' for v in violations):
+            fresh = [v for v in violations if match_known(known, v.vclass, v.detail) is None]
+            if len(fresh) >= 40 or len(harness_errors) >= 5 or any(v.vclass == 'no_progress' for v in fresh):
                 for p in pending:
                     p.cancel()
                 stopped_early = True
